@@ -84,6 +84,88 @@ theorem aliasChainGo_of_none (alias : List (Sym × Sym)) (fuel : Nat) (visited :
 theorem aliasChain_of_none (alias : List (Sym × Sym)) (s : Sym) (h : get? alias s = none) :
     aliasChain alias s = s := aliasChainGo_of_none alias _ _ s h
 
+/-! ### the fuel of `aliasChainGo` is never exhausted (the Rust `while` loop ends by itself) -/
+
+theorem filter_length_mono {K : List Sym} {p q : Sym → Bool} (hqp : ∀ k, q k = true → p k = true) :
+    (K.filter q).length ≤ (K.filter p).length := by
+  induction K with
+  | nil => simp
+  | cons k rest ih =>
+    simp only [List.filter_cons]
+    cases hq : q k with
+    | true => simp [hqp k hq]; exact ih
+    | false =>
+      simp only [Bool.false_eq_true, ↓reduceIte]
+      split
+      · simp; omega
+      · exact ih
+
+theorem filter_length_lt {K : List Sym} {p q : Sym → Bool} (hqp : ∀ k, q k = true → p k = true) {a : Sym}
+    (ha : a ∈ K) (hpa : p a = true) (hqa : q a = false) : (K.filter q).length < (K.filter p).length := by
+  induction K with
+  | nil => simp at ha
+  | cons k rest ih =>
+    have mono := filter_length_mono (K := rest) hqp
+    simp only [List.filter_cons]
+    rcases List.mem_cons.mp ha with rfl | hmem
+    · simp [hpa, hqa]; omega
+    · have := ih hmem
+      cases hq : q k with
+      | true => simp [hqp k hq]; exact this
+      | false =>
+        simp only [Bool.false_eq_true, ↓reduceIte]
+        split
+        · simp; omega
+        · exact this
+
+/-- keys of the alias map that the loop has not visited yet -/
+def keysLeft (alias : List (Sym × Sym)) (visited : List Sym) : Nat :=
+  ((alias.map (·.1)).filter (fun k => !visited.contains k)).length
+
+theorem aliasChainGo_succ (alias : List (Sym × Sym)) : ∀ (fuel : Nat) (visited : List Sym) (cur : Sym),
+    keysLeft alias visited < fuel →
+    aliasChainGo alias (fuel + 1) visited cur = aliasChainGo alias fuel visited cur := by
+  intro fuel
+  induction fuel with
+  | zero => intro visited cur h; omega
+  | succ n ih =>
+    intro visited cur h
+    rw [aliasChainGo, aliasChainGo]
+    split
+    · rfl
+    · rename_i hnv
+      split
+      · rename_i next hg
+        split
+        · apply ih
+          have hk : cur ∈ alias.map (·.1) := List.mem_map.mpr ⟨(cur, next), get?_mem hg, rfl⟩
+          have : keysLeft alias (cur :: visited) < keysLeft alias visited := by
+            unfold keysLeft
+            apply filter_length_lt (a := cur) _ hk
+            · simpa using hnv
+            · simp
+            · intro k hk'
+              simp only [List.contains_cons, Bool.not_eq_true', Bool.or_eq_false_iff] at hk'
+              have := hk'.2
+              simpa using this
+          omega
+        · rfl
+      · rfl
+
+theorem aliasChainGo_add (alias : List (Sym × Sym)) (fuel d : Nat) (visited : List Sym) (cur : Sym)
+    (h : keysLeft alias visited < fuel) :
+    aliasChainGo alias (fuel + d) visited cur = aliasChainGo alias fuel visited cur := by
+  induction d with
+  | zero => rfl
+  | succ d ih =>
+    rw [← Nat.add_assoc, aliasChainGo_succ alias (fuel + d) visited cur (by omega)]
+    exact ih
+
+theorem keysLeft_le (alias : List (Sym × Sym)) (visited : List Sym) : keysLeft alias visited ≤ alias.length := by
+  unfold keysLeft
+  have := List.length_filter_le (fun k => !visited.contains k) (alias.map (·.1))
+  simpa using this
+
 /-! ### the hierarchy test -/
 
 theorem isWithinHierarchy_prefix {cur p : List Name} (h : isWithinHierarchy cur p = true) :
